@@ -43,7 +43,12 @@ func (e *srvEnv) establish(c *symConn) {
 	verifQuiesce()
 }
 
-func Verif_C10_server_close_and_delete() {
+func Verif_C10_server_close_and_delete() { srvCloseAndDelete() }
+
+// also decides the C01 clause "every OnEstablished is matched by exactly one OnClose no later than the return of Server.Close/DeletePeer"
+func Verif_C01_server_close_and_delete() { srvCloseAndDelete() }
+
+func srvCloseAndDelete() {
 	verifRaceDetect(true)
 	d := 1
 	if verifTier() >= 1 {
